@@ -1,6 +1,6 @@
 (* C01 property theorems: statements only. *)
 From Coq Require Import List String Permutation Sorted.
-From PAFC01 Require Import ModelTree Sorting Proofs Proofs2 Proofs3 Proofs4 Proofs5 Proofs6.
+From PAFC01 Require Import ModelTree Sorting Proofs Proofs2 Proofs3 Proofs4 Proofs5 Proofs6 Proofs8.
 Import ListNotations.
 
 (* the advertised parameter order is strictly increasing in parameter id, has no repeats, lists
@@ -205,6 +205,26 @@ Theorem C01_tuple_member_derived : forall (V : Type) (bin : binop -> V -> V -> V
              nth i vs IMissing = IV v.
 Proof. exact tuple_member_derived. Qed.
 
+(* components of a collection are addressed by NAME, at whatever position they sit: a path that starts with the
+   name k of an item continues inside that item -- for the parameter a supplied value goes to (object_for_path),
+   for the sub-model found there and for the value found in every built instance.  An item named "0" is not "the
+   first item" (Collection(main=..).append(..); c[1] = ..; c[0] = ..; a list after remove()) *)
+Theorem C01_item_by_name : forall (V : Type) (bin : binop -> V -> V -> V) (un : unop -> V -> V) (attrs : list (string * node V))
+    (k : string) (c : node V) (p' : path),
+  NoDup (map fst attrs) -> In (k, c) attrs ->
+  prior_at V (k :: p') (NColl attrs) = prior_at V p' c /\
+  node_at V (k :: p') (NColl attrs) = node_at V p' c /\
+  forall args, lookup V (k :: p') (inst V bin un args (NColl attrs)) = lookup V p' (inst V bin un args c).
+Proof. exact item_by_name. Qed.
+
+(* ... hence the ORDER of the items of a collection is irrelevant for everything that is addressed by a path *)
+Theorem C01_item_order_irrelevant : forall (V : Type) (bin : binop -> V -> V -> V) (un : unop -> V -> V)
+    (attrs attrs' : list (string * node V)) (k : string) (p' : path),
+  NoDup (map fst attrs) -> Permutation attrs attrs' ->
+  prior_at V (k :: p') (NColl attrs) = prior_at V (k :: p') (NColl attrs') /\
+  node_at V (k :: p') (NColl attrs) = node_at V (k :: p') (NColl attrs') /\
+  forall args, lookup V (k :: p') (inst V bin un args (NColl attrs)) = lookup V (k :: p') (inst V bin un args (NColl attrs')).
+Proof. exact item_order_irrelevant. Qed.
 (* ---------- the unary node: ModifiedPrior (-p, abs(p)) ---------- *)
 (* a unary node contributes exactly its operand's parameters: same identities, same advertised order, same
    count; every path is the operand's path behind the operand's attribute name *)
@@ -287,3 +307,5 @@ Print Assumptions C01_unary_prior_at.
 Print Assumptions C01_unary_of_constant_raises.
 Print Assumptions C01_mod_floordiv_Q.
 Print Assumptions C01_sub_as_built_Q.
+Print Assumptions C01_item_by_name.
+Print Assumptions C01_item_order_irrelevant.
